@@ -466,3 +466,41 @@ def canon_rfc3339_hex(hextext, suffix_ok=True):
     if ins is None or (sep and not suffix_ok):
         return None
     return "@%d%s" % (ins, (" " + rest) if sep else "")
+
+
+# --------------------------------------------------------------------------------------
+# environment probe: does the code under test consult environment variables?
+# --------------------------------------------------------------------------------------
+ENV_BASELINE = {"RUST_BACKTRACE", "RUST_LIB_BACKTRACE", "RUST_MIN_STACK", "BP7_CLI_BIN", "BP7_CLI_TMP", "BP7_VERIF_CLOCK_MS", "TMPDIR", "HOME",
+                "TZ", "TZDIR", "LANG", "LC_ALL", "LC_MESSAGES", "LANGUAGE", "MALLOC_ARENA_MAX", "GLIBC_TUNABLES", "LD_LIBRARY_PATH", "LD_PRELOAD",
+                "LD_BIND_NOW", "LD_BIND_NOT", "LD_DYNAMIC_WEAK", "LD_PROFILE_OUTPUT", "LD_ASSUME_KERNEL", "LLVM_PROFILE_FILE", "NO_COLOR", "TERM",
+                "OUTPUT_CHARSET", "CHARSET", "LOCPATH", "NLSPATH", "COLUMNS", "LINES"}
+
+
+def env_shim():
+    """the LD_PRELOAD library of tools/envshim.c (built on first use); None when no C compiler is there"""
+    so = os.path.join(CACHE, "envshim.so")
+    src = os.path.join(VERIF, "tools", "envshim.c")
+    if not os.path.exists(so) or os.path.getmtime(so) < os.path.getmtime(src):
+        rc, out = sh(["cc", "-shared", "-fPIC", "-O1", "-o", so, src, "-ldl"], timeout=120)
+        if rc != 0:
+            return None
+    return so
+
+
+def env_names_consulted(exe, lines):
+    """names of the environment variables `exe` (and its children) look up while answering `lines`, beyond the baseline of the Rust
+    runtime, the C library and the harness itself"""
+    so = env_shim()
+    if so is None or not lines:
+        return None
+    log = os.path.join(CACHE, "envprobe-%d.log" % os.getpid())
+    if os.path.exists(log):
+        os.remove(log)
+    env = dict(ENV, LD_PRELOAD=so, BP7_ENVLOG=log)
+    run_lines(exe, lines, env=env)
+    names = set()
+    if os.path.exists(log):
+        names = set(x for x in open(log, errors="replace").read().split("\n") if x)
+        os.remove(log)
+    return sorted(n for n in names if n not in ENV_BASELINE and not n.startswith(("LC_", "LD_", "MALLOC_", "GLIBC_")))
